@@ -9,6 +9,28 @@ REPO = os.environ.get("VERIF_REPO", "/repo")
 COQ = os.path.join(VERIF, "coq")
 BUILD = os.path.join(VERIF, "build")
 HARNESS = os.path.join(VERIF, "harness")
+EVIDENCE = os.path.join(VERIF, "evidence")
+REPLAYS = os.path.join(VERIF, "replays")
+ALT = os.path.abspath(REPO) != "/repo"
+if ALT:
+    # Checks normally run against /repo itself.  For trying the machinery on a scratch worktree
+    # (mutation experiments in parallel) VERIF_REPO points elsewhere: everything that depends on the
+    # repository (Generated.v, compiled Coq tree, harness module, evidence, replays) then lives in a
+    # private build directory so that /verif's own state is not disturbed.
+    REPO = os.path.abspath(REPO)
+    BUILD = os.path.join(VERIF, "build", "alt-" + hashlib.sha1(REPO.encode()).hexdigest()[:8])
+    COQ, HARNESS = os.path.join(BUILD, "coq"), os.path.join(BUILD, "harness")
+    EVIDENCE, REPLAYS = os.path.join(BUILD, "evidence"), os.path.join(BUILD, "replays")
+
+
+def prepare_alt():
+    os.makedirs(BUILD, exist_ok=True)
+    subprocess.run(["rsync", "-a", "--delete", "--exclude", "Gen/", os.path.join(VERIF, "coq") + "/", COQ + "/"], check=True)
+    subprocess.run(["rsync", "-a", "--delete", os.path.join(VERIF, "harness") + "/", HARNESS + "/"], check=True)
+    os.makedirs(os.path.join(COQ, "Gen"), exist_ok=True)
+    gm = os.path.join(HARNESS, "go.mod")
+    txt = open(gm).read().replace("=> /repo", "=> " + REPO)
+    open(gm, "w").write(txt)
 GO_HARNESS = os.environ.get("VERIF_GO", "go1.26.8")
 
 ENV = dict(os.environ)
@@ -249,9 +271,9 @@ def uncovered(r, open_labels):
 
 
 def write_replay(prop, kind, payload):
-    os.makedirs(os.path.join(VERIF, "replays"), exist_ok=True)
+    os.makedirs(REPLAYS, exist_ok=True)
     h = hashlib.sha1(json.dumps(payload, sort_keys=True, default=str).encode()).hexdigest()[:12]
-    path = os.path.join(VERIF, "replays", "%s-%s-%s.json" % (prop, kind, h))
+    path = os.path.join(REPLAYS, "%s-%s-%s.json" % (prop, kind, h))
     json.dump(payload, open(path, "w"), indent=1, default=str)
     return path
 
@@ -275,7 +297,9 @@ def main(argv):
     log = []
     outdir = os.path.join(BUILD, prop)
     os.makedirs(outdir, exist_ok=True)
-    os.makedirs(os.path.join(VERIF, "evidence"), exist_ok=True)
+    os.makedirs(EVIDENCE, exist_ok=True)
+    if ALT:
+        prepare_alt()
 
     gen_ok = step_gen(log)
     lint_ok = step_lint(log)
@@ -412,7 +436,7 @@ def main(argv):
         "wall_s": round(wall, 2),
         "violations": 1 if violation else 0,
     }
-    json.dump(ev, open(os.path.join(VERIF, "evidence", prop + ".json"), "w"), indent=1, default=str)
+    json.dump(ev, open(os.path.join(EVIDENCE, prop + ".json"), "w"), indent=1, default=str)
     open(os.path.join(outdir, "log.txt"), "w").write("\n".join(log))
 
     for l in kf_lines:
